@@ -158,43 +158,11 @@ for _n in (2, 3, 4, 5):
             """TT / MPS: T[x_0..x_{n-1}] = sum over r_1..r_{n-1} of V0[x_0, r_1] V1[r_1, x_1, r_2] ... V_{n-1}[r_{n-1}, x_{n-1}].  Contraction step i
             (i = 0 .. n-2) multiplies the running vector with the embeddings of VARIABLE i+1 - `rank` embeddings of `rank` units and shape[i+1]
             states for an inner variable (one per value of the next bond index), one for the last - and sums with the constant block-diagonal /
-            all-ones matrix.  The rank is concrete (it is a loop bound), dimensions are symbolic; the constant matrices (numpy / scipy) are
-            opaque here: their values are checked by the bounded stand-in."""
+            all-ones matrix, whose entries are checked one by one (numpy.ones / scipy.linalg.block_diag are modelled as tensors).  The rank is
+            concrete (it is a loop bound), dimensions are symbolic."""
             from engine.values import Opaque
             shape = tuple(vc.int(f"d{j}", lo=2) for j in range(_n))       # (a mode of size 1 is refused by the embedding layer: ValueError)
-            made = []
 
-            class NpConst:
-                """a numpy float array of which only the shape is observable (assumed contract of np.ones / scipy.linalg.block_diag)"""
-
-                def __init__(self, shp):
-                    self.shp = tuple(shp)
-
-                def __vf_getattr__(self, I, name):
-                    from engine.values import ExternalVal
-                    if name == "shape":
-                        return self.shp
-                    if name == "ndim":
-                        return len(self.shp)
-                    if name == "dtype":
-                        return Opaque("np_dtype", {"type": ExternalVal("numpy.float64")})
-                    from engine.interp import Unsupported
-                    raise Unsupported(f"ndarray.{name}")
-
-                def __vf_isinstance__(self, I, t):
-                    return getattr(t, "name", getattr(t, "dotted", "")).split(".")[-1] == "ndarray"
-
-            def const(name):
-                def f(I, a, k):
-                    if name == "ones":
-                        o = NpConst(a[0])
-                    else:                                   # block_diag of k blocks of shape (p, q): (k p, k q)
-                        o = NpConst((sum(b.shp[0] for b in a), sum(b.shp[1] for b in a)))
-                    made.append((name, a, o))
-                    return o
-                return f
-            vc.I.externals["numpy.ones"] = const("ones")
-            vc.I.externals["scipy.linalg.block_diag"] = const("block_diag")
             sc = vc.call(f"{TF}:tensor_train", shape, _r)
             layers, ins, outs = _layers(sc)
             vc.ensure("single_output", len(outs) == 1)
@@ -216,6 +184,18 @@ for _n in (2, 3, 4, 5):
                 last = i == _n - 2
                 vc.ensure(f"step{i}.number_of_products", len(prods) == (1 if last else _r))
                 vc.ensure(f"step{i}.sum_units", vc.must(z3.And(to_z3(vc.attr(s, "num_output_units")) == (1 if last else _r), to_z3(vc.attr(s, "num_input_units")) == _r)))
+                # the constant matrix of the contraction: all ones (1, r) at the end; otherwise block-diagonal (r, r*r): unit k of the result sums
+                # the r units of product k (the k-th slice of the next bond index) and nothing of the other products
+                W = vc.attr(s, "weight")
+                (wn,) = W.fields["_outputs"]
+                val = wn.fields.get("value") if wn.cls.name == "ConstantParameter" else None
+                from engine.tensor import Tensor as _T
+                okc = isinstance(val, _T) and val.rank == 2
+                vc.ensure(f"step{i}.constant_contraction_matrix", okc)
+                if okc:
+                    rows, cols = (1, _r) if last else (_r, _r * _r)
+                    entries = z3.And(*[to_z3(val.elem([a, b])) == (1 if (last or b // _r == a) else 0) for a in range(rows) for b in range(cols)])
+                    vc.ensure(f"step{i}.contraction_matrix_entries", z3.And(to_z3(val.shape[0]) == rows, to_z3(val.shape[1]) == cols, entries))
                 for q, p in enumerate(prods):
                     pin = list(ins.get(p, []))
                     ok = p.cls.name == "HadamardLayer" and len(pin) == 2 and pin[1].cls.name == "EmbeddingLayer"
